@@ -12,6 +12,7 @@ fn main() {
         std::process::exit(2);
     }
     lqverif::mon::install();
+    lqverif::exec::limit_memory(8);
     if let Some(path) = arg(&args, "--replay") {
         let text = std::fs::read_to_string(&path).expect("read replay file");
         let j: serde_json::Value = serde_json::from_str(&text).expect("replay json");
